@@ -79,6 +79,8 @@ PROPS["C05"] = {
     "assumptions": ["if-expressions are opaque leaves of the expression model (right-open, never unparenthesised)"],
 }
 
+SLOT_RULE = ("comment-slot enumeration: 46 constructs (every statement kind, expression kinds, Luau/5.2/5.4 forms) x every token gap x {block, multi-line block, line comment + newline} x 6 configurations = 9 954 cases, all oracles; closed and seed-independent. ")
+
 PIPE_RULE = ("ring 3 (closed set): the repository's 367 test inputs (+ committed catalogue) x a fixed grid of 79 configurations "
              "(column widths 1..usize::MAX, both indent types, widths 1-16, both line endings, every value of every enum option), "
              "each case checked by independent oracles (re-parse, normal form, comment census, idempotence, whitespace scan, panic/time). ")
@@ -87,12 +89,12 @@ PROPS["C01"] = {
     "lean_modules": ["StyluaModel.Props.C01"],
     "theorem_prefix": "C01_",
     "required_theorems": ["C01_binops_spaced", "C01_binop_table_complete", "C01_unops_shape", "C01_no_minus_minus", "C01_expr_reparses", "C01_string_token"],
-    "hx": [["c05"], ["pipe"]],
+    "hx": [["c05"], ["pipe"], ["slots"]],
     "level": "proof",
     "level_text": "Proof, partial: theorems cover the expression-level edit closure (every parenthesis edit yields a tree that re-parses to itself, for all oracles), the `- -` clause, string tokens staying one token, and the operator-text table regenerated from the compiled code on every run. The statement-level grammar and the claim that every separator emitted by the ~150 trivia sites is safe are carried by the correspondence and the closed-set re-parse oracle only.",
     "level_note": "Trusted: Lean kernel; ParenRule/StrLit models tied by correspondence; Spec.Prec.faithful validated against full_moon; OpTables observed from the compiled formatter by the translator; the closed-set oracle uses full_moon itself as the parser the property names.",
     "technique": "Lean 4 proofs over oracle-parameterised model + translated operator table + re-parse oracle on closed corpus set",
-    "rule": PIPE_RULE + "ring 2: the `expr` correspondence of C05 (same request stream). distinct_nontrivial = distinct expr requests whose output tree differs from the input tree.",
+    "rule": PIPE_RULE + SLOT_RULE + "ring 2: the `expr` correspondence of C05 (same request stream). distinct_nontrivial = distinct expr requests whose output tree differs from the input tree.",
     "trusted_base": ["statement-level grammar preservation is not modelled (tokens untouched => same parse) — covered by ring 3 only"],
     "assumptions": ["Luau type syntax is covered by the closed-set oracle only"],
 }
@@ -101,12 +103,12 @@ PROPS["C02"] = {
     "lean_modules": ["StyluaModel.Props.C02"],
     "theorem_prefix": "C02_",
     "required_theorems": ["C02_expr", "C02_expr_at", "C02_cond", "C02_string_51", "C02_string_52", "C02_number"],
-    "hx": [["c05"], ["pipe"]],
+    "hx": [["c05"], ["pipe"], ["slots"]],
     "level": "proof",
     "level_text": "Proof, partial: theorems state that every modelled edit kind preserves meaning for inputs of any size and every layout oracle — parentheses (expression trees, truncation), condition parentheses, string literal values (5.1 and 5.2+ readings), number spelling. Statement order, call sugar and table separators are covered by the independent normal-form oracle on the closed corpus set and by the correspondence, not yet by theorems.",
     "level_note": "Trusted: Lean kernel; models tied by correspondence (expr/strlit protocols); the harness normal form N (harness/src/nf.rs) is an independent checker over full_moon ASTs that never consults StyLua's own verify_ast.",
     "technique": "Lean 4 semantic-preservation proofs over models + independent AST normal-form oracle",
-    "rule": PIPE_RULE + "ring 2: `expr` correspondence (see C05). distinct_nontrivial as in C05.",
+    "rule": PIPE_RULE + SLOT_RULE + "ring 2: `expr` correspondence (see C05). distinct_nontrivial as in C05.",
     "trusted_base": ["normal form N: drops parentheses except truncation in multi-value positions, explicit operator grouping, decoded string values, `.5`->`0.5`, call sugar, table separators, semicolons"],
     "assumptions": ["sort_requires off (C12 covers sorting)"],
 }
